@@ -462,6 +462,113 @@ def replay_big(task):
     return {"fails": [f for f in fails if f["prop"] == task["prop"]]}
 
 
+EXACT_TYPES = ["affine_leq", "affine_geq", "alldifferent", "count_eq", "exactly_eq", "exactly_true", "and", "max_eq", "min_eq",
+               "max_leq", "min_geq", "element_iv", "element_liv", "element_lic", "lexicographic_leq", "gcc", "relation"]
+
+
+def run_big_interp(task):
+    """Plane A on large planted models: the first solutions of the real interpreted engine under the monitors named in the
+    task (fixpoint: shrink / re-execution / greatest common fixpoint through the support oracle; calls: every propagator
+    execution judged against the exact hull). Partial enumerations only - the monitors judge passes and calls, not counts."""
+    from framework import modelrun
+
+    t0 = time.time()
+    rnd = random.Random(task["seed"])
+    want = set(task["props"])
+    res = {"evals": 0, "fails": [], "fail_counts": {}, "hashes": [], "nontrivial": [], "samples": [], "counters": {},
+           "mode": MODE}
+    deadline = t0 + task.get("deadline_s", 1e9)
+    hull_cache = {}
+
+    def cnt(k, n=1):
+        res["counters"][k] = res["counters"].get(k, 0) + n
+
+    for it in range(task["count"]):
+        if time.time() > deadline:
+            res["truncated"] = True
+            break
+        exact = it % 2 == 0
+        model, plant = gen_big(rnd, dict(task.get("gen") or {}, types=EXACT_TYPES if exact else None,
+                                         circuit=0.0 if exact else 0.25))
+        if it % 3 == 2:
+            model = restrict(model, plant, rnd, rnd.randint(4, 8))
+        cfg = {"calg": task.get("calg") or rnd.choice(["bc", "bc", "shaving"]), "vh": rnd.choice(CFG_VH),
+               "dh": rnd.choice(CFG_DH)}
+        spec = {}
+        for m in task["monitors"]:
+            spec[m] = dict((task.get("monitor_opts") or {}).get(m, {}))
+        if "calls" in spec:
+            spec["calls"]["cache"] = hull_cache
+        progress.mark({"model": model, "cfg": cfg, "stream": "big_interp"})
+        out = modelrun.run_enum(model, cfg, spec, stop_after=task.get("stop_after", 3))
+        res["evals"] += 1
+        h = case_hash([model, cfg])
+        res["hashes"].append(h)
+        if out.stats and out.stats[10] >= 1:
+            res["nontrivial"].append(h)
+        cnt("big_interp.runs")
+        cnt("big_interp.runs_exact_bc_models" if exact else "big_interp.runs_all_types")
+        for k, v in out.monitor_counts.items():
+            if isinstance(v, (int, float)) and not k.endswith("_limit"):
+                cnt(k, v)
+        if out.error == "budget":
+            cnt("big_interp.step_budget_exceeded")
+            if "C04" in want:
+                res["fails"].append({"prop": "C04", "kind": "step_budget", "detail": out.error_detail, "model": model,
+                                     "cfg": cfg, "mode": MODE, "stream": "big_interp"})
+        elif out.error and out.error != "monitor":
+            f = {"prop": sorted(want)[0], "kind": "big_run_failed:" + out.error, "detail": str(out.error_detail),
+                 "model": model, "cfg": cfg, "mode": MODE, "stream": "big_interp"}
+            res["fails"].append(f)
+        for sol in out.solutions:
+            why = O.check_solution(model, list(sol))
+            if why and "C01" in want:
+                res["fails"].append({"prop": "C01", "kind": "invalid_solution", "detail": why, "model": model, "cfg": cfg,
+                                     "mode": MODE, "stream": "big_interp"})
+        for f in out.monitor_fails:
+            if f["prop"] not in want:
+                continue
+            key = "%s|%s" % (f["prop"], f["kind"])
+            c = res["fail_counts"].get(key, 0)
+            res["fail_counts"][key] = c + 1
+            if c < 4:
+                w = dict(f)
+                if "call" in w:
+                    w["in_model"], w["in_cfg"] = model, cfg
+                else:
+                    w["model"], w["cfg"] = model, cfg
+                    w["stream"] = "big_interp"
+                    w["monitors"] = task["monitors"]
+                w["mode"] = MODE
+                res["fails"].append(w)
+        if not res["samples"]:
+            res["samples"].append({"model": model, "cfg": cfg, "monitor_counts": {
+                k: v for k, v in out.monitor_counts.items() if isinstance(v, int)}})
+    res["wall"] = time.time() - t0
+    return res
+
+
+def replay_big_interp(task):
+    from framework import modelrun
+
+    w = task["witness"]
+    spec = {m: {} for m in w.get("monitors", ["budget", "fixpoint"])}
+    out = modelrun.run_enum(w["model"], w["cfg"], spec, stop_after=3)
+    return {"fails": [f for f in out.monitor_fails if f["prop"] == task["prop"]]}
+
+
+def interp_jobs(prop, tier, seed, monitors, n=None, monitor_opts=None, calg=None):
+    from framework.common import Job
+
+    q = tier == "quick"
+    return [Job("framework.props.bigrun", "run_big_interp",
+                {"props": [prop], "seed": seed * 6163 + k * 13 + 1, "count": 25 if q else 600, "monitors": monitors,
+                 "monitor_opts": monitor_opts or {}, "deadline_s": 50 if q else 900, "calg": calg,
+                 "gen": {"max_vars": 14 if k % 2 == 0 else 22, "max_arity": 8 if k % 2 == 0 else 12}},
+                mode="interp", timeout=300 if q else 1800, tag="biginterp:%d" % k, stall_s=120)
+            for k in range(n or (2 if q else 6))]
+
+
 def jobs(prop, tier, seed, n=None, count=None, calg=None):
     from framework.common import Job
 
